@@ -36,7 +36,10 @@ def mutate(rng, prob, kw, d):
 
 def _runs(ctx):
     if not hasattr(ctx, "_c02"):
-        ctx._c02 = ss.run_trace_property(ctx, "count", 250, 3000, 202, None, mutate_cfg=mutate)
+        runs, metas, stats = ss.run_trace_property(ctx, "count", 250, 3000, 202, None, mutate_cfg=mutate)
+        r2, m2 = ss.budget_sweep(ctx, 202, 6, 40)
+        stats["budget_sweep_runs"] = len(r2)
+        ctx._c02 = (runs + r2, metas + m2, stats)
     return ctx._c02
 
 
@@ -63,7 +66,10 @@ def replay(payload):
     if "seed" not in rp:
         print("replay names a broken obligation:", payload.get("broken"))
         return 1
-    prob, kw, d, t = ss.gen_run(dfols, rp["seed"], mutate_cfg=mutate)
+    if len(rp["seed"]) == 5:
+        _seed, prob, kw, d, t, _f = ss.replay_sweep(dfols, rp["seed"])
+    else:
+        prob, kw, d, t = ss.gen_run(dfols, rp["seed"], mutate_cfg=mutate)
     res = so.c02(t, d, kw["maxfun"])
     print("replay:", res if res else "property holds on this input now")
     return 1 if res else 0
